@@ -114,7 +114,7 @@ def _fault(rng):
         return {"seam": "write", "at": rng.randrange(3), "kind": rng.pick(["enospc", "eio", "eacces", "short"]), "k": rng.randrange(400)}
     if seam == "read":
         if rng.chance(0.3):
-            return {"seam": "read", "at": rng.pick([0, 0, 5, 10]), "kind": "truncated"}  # torn read of the head-count table
+            return {"seam": "read", "name": "FAOSTAT_head_and_slaughter.csv", "nth": rng.pick([0, 0, 1, 2]), "kind": "truncated"}  # torn read of the head-count table
         return {"seam": "read", "at": rng.randrange(15), "kind": rng.pick(["enoent", "eio", "parse", "truncated"])}
     if seam == "abort":
         return {"seam": "abort", "at": 1 + int(10 ** rng.uniform(1, 6.4))}
